@@ -81,7 +81,7 @@ def cpp_write_return_rules(ck, rule, facts):
                 vs_ = [q.get("v") for q in ([pv] if pv.get("k") != "or" else pv["alts"])]
                 subs_ = [q2.get("v") for q in ([pv] if pv.get("k") != "or" else pv["alts"]) for q2 in (q.get("sub") or []) if isinstance(q2, dict)]
                 if shape in vs_ and (not any(subs_) or "Write" in subs_ or all(x_ is None for x_ in subs_)):
-                    text = " ".join(C.str_lits(arm["b"]))
+                    text = " ".join(l_ for b2 in C.bodies_inl(tool, arm["b"], depth=1, exclude=[f["path"]]) for l_ in C.str_lits(b2))      # the arm and the helpers it delegates to
                     if "Write" in subs_ or not any(subs_):
                         break
         if text is None:
